@@ -202,8 +202,13 @@ def gen_leaf(rng, sp, S='S'):
     return Node(obj, coq, py, True)
 
 
+_CONVEX_ONLY = [False]
+
+
 def _scalar(rng, bad=0.08):
     r = rng.random()
+    if _CONVEX_ONLY[0]:
+        bad = 0.0
     if r < bad:
         return rng.choice([-1.0, -0.5, -2.0])
     if r < bad * 1.5:
@@ -255,7 +260,7 @@ def gen_tree(rng, sp, depth, S='S'):
         return Node(f.obj.translated(sp.elem(t)), '(cTransl %s %s)' % (f.coq, C.qs(t)),
                     '%s.translated(%s)' % (f.py, pyelem(sp, t, S)), True)
     if rule in ('qp', 'qp0'):
-        a = 0.0 if rule == 'qp0' else rng.choice([0.0, 0.5, 1.0, 1.5, 4.0, 0.25, -0.5 if rng.random() < 0.2 else 2.0])
+        a = 0.0 if rule == 'qp0' else rng.choice([0.0, 0.5, 1.0, 1.5, 4.0, 0.25, -0.5 if (rng.random() < 0.2 and not _CONVEX_ONLY[0]) else 2.0])
         u = _vec(rng, sp.n, lo=True) if rng.random() < 0.7 else None
         c = rng.choice([0.0, _val(rng)])
         obj = FF.FunctionalQuadraticPerturb(f.obj, a, sp.elem(u) if u is not None else None, c)
@@ -447,8 +452,250 @@ def correspondence(rng, tier):
     return [cs]
 
 
+# ------------------------------------------------------------------ probes
+# The property itself, evaluated on the real objects (no model involved).
+_SKIP = (NotImplementedError,)
+
+
+def _scale(*vals):
+    return 1.0 + sum(abs(v) for v in vals if np.isfinite(v))
+
+
+def chk_fy(f, x, y):
+    """f(x) + f*(y) >= <x, y>; None when the library cannot evaluate one side."""
+    try:
+        fc = f.convex_conj
+        a, b = float(f(x)), float(fc(y))
+    except _SKIP:
+        return None, 'not evaluable'
+    r = float(x.inner(y))
+    lhs = a + b
+    if lhs != lhs:
+        return False, 'f(x)=%r f*(y)=%r' % (a, b)
+    return bool(lhs >= r - 1e-9 * _scale(a, b, r)), 'f(x)=%r f*(y)=%r <x,y>=%r' % (a, b, r)
+
+
+def chk_grad_eq(f, x):
+    """f(x) + f*(grad f(x)) = <x, grad f(x)>."""
+    try:
+        fc = f.convex_conj
+        g = f.gradient(x)
+        a = float(f(x))
+        b = float(fc(g))
+        if b == np.inf:
+            # rounding guard: the gradient of a norm sits on the unit sphere up to rounding
+            b = float(fc(g * (1 - 1e-9)))
+    except _SKIP:
+        return None, 'not evaluable'
+    except ValueError as e:
+        if 'not defined' in str(e):      # KL cross entropy gradient outside its domain
+            return None, 'gradient undefined here'
+        raise
+    if not all(np.isfinite(v) for v in np.ravel(_flatten(g))):
+        return None, 'gradient not finite'
+    r = float(x.inner(g))
+    if not np.isfinite(a):
+        return None, 'f(x) infinite'
+    return bool(abs(a + b - r) <= 1e-7 * _scale(a, b, r)), 'f(x)=%r f*(g)=%r <x,g>=%r' % (a, b, r)
+
+
+def _flatten(el):
+    import odl
+    if isinstance(el.space, odl.ProductSpace):
+        return np.concatenate([_flatten(e) for e in el])
+    return np.asarray(el).ravel()
+
+
+def chk_biconj(f, x):
+    try:
+        fcc = f.convex_conj.convex_conj
+        a, b = float(f(x)), float(fcc(x))
+    except _SKIP:
+        return None, 'not evaluable'
+    if a == np.inf or b == np.inf:
+        return bool(a == b), 'f(x)=%r f**(x)=%r' % (a, b)
+    return bool(abs(a - b) <= 1e-8 * _scale(a, b)), 'f(x)=%r f**(x)=%r' % (a, b)
+
+
+def chk_moreau(f, x, s):
+    """prox_{s f}(x) + s prox_{f*/s}(x/s) = x  (s a positive scalar or one step per component)."""
+    try:
+        fc = f.convex_conj
+        if np.isscalar(s):
+            p = f.proximal(s)(x)
+            q = fc.proximal(1.0 / s)(x / s)
+            res = p + s * q - x
+        else:
+            p = f.proximal(list(s))(x)
+            xs = x.space.element([xi / si for xi, si in zip(x, s)])
+            q = fc.proximal([1.0 / si for si in s])(xs)
+            res = x.space.element([pi + si * qi - xi for pi, qi, xi, si in zip(p, q, x, s)])
+    except _SKIP:
+        return None, 'no proximal pair'
+    err = float(np.max(np.abs(_flatten(res)))) if x.space.size else 0.0
+    nx = float(np.max(np.abs(_flatten(x)))) if x.space.size else 0.0
+    return bool(err <= 1e-8 * (1 + nx)), 'max|p + s q - x| = %r' % err
+
+
+CHECKS = {'fy': lambda f, x, y, s: chk_fy(f, x, y), 'grad-eq': lambda f, x, y, s: chk_grad_eq(f, x),
+          'biconj': lambda f, x, y, s: chk_biconj(f, x), 'moreau': lambda f, x, y, s: chk_moreau(f, x, s)}
+
+
+def run_check(name, f, x, y, s):
+    """-> (ok, detail); an unexpected exception counts as a failure of the property."""
+    try:
+        ok, detail = CHECKS[name](f, x, y, s)
+    except Exception as e:  # noqa
+        return False, 'raised %s: %s' % (type(e).__name__, str(e)[:200])
+    return (True if ok is None else ok), detail
+
+
+_REPLAY = """import sys, numpy as np, odl
+sys.path.insert(0, %(verif)r)
+from harness import c08 as H
+F = odl.solvers
+from odl.solvers.functional import functional as FF
+np.seterr(all='ignore')
+%(setup)s
+ok, observed = H.run_check(%(check)r, f, x, y, %(sigma)r)
+expected = %(check)r + ' holds'
+"""
+
+
+def _probe(out, check, key, what, setup, f, x, y, s):
+    ok, detail = run_check(check, f, x, y, s)
+    rp = _REPLAY % {'verif': C.VERIF, 'setup': setup, 'check': check, 'sigma': s}
+    out.append(C.Probe(ok, key, what, rp, detail))
+
+
+def _topclass(f):
+    return type(f).__name__
+
+
+def tree_probes(rng, tier, out):
+    n = 150 if tier == 'quick' else 900
+    maxd = 3 if tier == 'quick' else 4
+    _CONVEX_ONLY[0] = True
+    try:
+        for _ in range(n):
+            sp = gen_space(rng)
+            try:
+                node = gen_tree(rng, sp, rng.choice(list(range(maxd + 1))))
+            except Exception:
+                continue
+            x, y, sigma = gen_points(rng, sp)
+            setup = 'S = %s\nf = %s\nx = %s\ny = %s' % (sp.ctor, node.py, pyelem(sp, x), pyelem(sp, y))
+            X, Y = sp.elem(x), sp.elem(y)
+            for check in ('fy', 'grad-eq', 'biconj', 'moreau'):
+                _probe(out, check, '%s:%s:%s' % (check, _topclass(node.obj), sp.kind),
+                       '%s for %s on %s' % (check, node.py, sp.ctor), setup, node.obj, X, Y, sigma)
+    finally:
+        _CONVEX_ONLY[0] = False
+
+
+def class_probes(rng, tier, out):
+    """classes / options that the Coq model does not cover."""
+    import odl
+    reps = 2 if tier == 'quick' else 8
+    spaces = [('rn', 'odl.rn(3)'), ('rn_const', 'odl.rn(3, weighting=0.5)'),
+              ('rn_array', 'odl.rn(3, weighting=np.array([0.5, 2.0, 1.0]))'),
+              ('discr1', 'odl.uniform_discr(0, 1.5, 3)'), ('discr2', 'odl.uniform_discr([0, 0], [1, 1], [2, 2])')]
+    pspaces = [('power', 'odl.ProductSpace(odl.rn(3), 2)'),
+               ('power_discr', 'odl.ProductSpace(odl.uniform_discr(0, 1, 4), 2)'),
+               ('power_weighted', 'odl.ProductSpace(odl.rn(2, weighting=2.0), 3)')]
+    mspaces = [('matrix_power', 'odl.ProductSpace(odl.ProductSpace(odl.rn(2), 2), 3)')]
+
+    def rnd(space, lo, hi):
+        if isinstance(space, odl.ProductSpace):
+            return 'S.element([%s])' % ', '.join(
+                rnd(sp_i, lo, hi).replace('S.element', 'S[%d].element' % i) if not isinstance(sp_i, odl.ProductSpace)
+                else _nested(sp_i, 'S[%d]' % i, lo, hi) for i, sp_i in enumerate(space))
+        vals = [round(rng.uniform(lo, hi) * 8) / 8.0 for _ in range(space.size)]
+        return 'S.element(np.array(%r).reshape(S.shape))' % (vals,)
+
+    def _nested(space, name, lo, hi):
+        parts = []
+        for i, sp_i in enumerate(space):
+            if isinstance(sp_i, odl.ProductSpace):
+                parts.append(_nested(sp_i, '%s[%d]' % (name, i), lo, hi))
+            else:
+                vals = [round(rng.uniform(lo, hi) * 8) / 8.0 for _ in range(sp_i.size)]
+                parts.append('%s[%d].element(np.array(%r).reshape(%s[%d].shape))' % (name, i, vals, name, i))
+        return '%s.element([%s])' % (name, ', '.join(parts))
+
+    def run(tag, kind, sctor, fsrc, checks, xr=(-3, 3), yr=(-1.5, 1.5), key=None, sig=None):
+        env = {'np': np, 'odl': odl, 'F': odl.solvers}
+        exec('from odl.solvers.functional import functional as FF', env)
+        exec('S = ' + sctor, env)
+        S = env['S']
+        for _ in range(reps):
+            xs = _nested(S, 'S', *xr) if isinstance(S, odl.ProductSpace) else rnd(S, *xr)
+            ys = _nested(S, 'S', *yr) if isinstance(S, odl.ProductSpace) else rnd(S, *yr)
+            setup = 'S = %s\nf = %s\nx = %s\ny = %s' % (sctor, fsrc, xs, ys)
+            loc = dict(env)
+            try:
+                exec(setup, loc)
+            except Exception as e:  # noqa
+                out.append(C.Probe(False, key or 'construct:%s:%s' % (tag, kind),
+                                   'constructing %s on %s raised %s' % (fsrc, sctor, type(e).__name__), None, str(e)[:200]))
+                return
+            s = sig if sig is not None else rng.choice([0.5, 1.0, 2.0, 0.25])
+            for check in checks:
+                _probe(out, check, key or '%s:%s:%s' % (check, tag, kind), '%s for %s on %s' % (check, fsrc, sctor),
+                       setup, loc['f'], loc['x'], loc['y'], s)
+
+    allc = ('fy', 'grad-eq', 'biconj', 'moreau')
+    for kind, sctor in spaces:
+        run('KL', kind, sctor, 'F.KullbackLeibler(S)', allc, xr=(0.125, 3), yr=(-2, 0.875))
+        run('KL-prior', kind, sctor, 'F.KullbackLeibler(S, prior=S.element([0.5, 1.0, 2.0, 1.5][:S.size]))' if 'discr2' not in kind
+            else 'F.KullbackLeibler(S, prior=S.element([[0.5, 1.0], [2.0, 1.5]]))', allc, xr=(0.125, 3), yr=(-2, 0.875))
+        run('KLcc', kind, sctor, 'F.KullbackLeibler(S).convex_conj', allc, xr=(-2, 0.875), yr=(0.125, 3))
+        run('KLCE', kind, sctor, 'F.KullbackLeiblerCrossEntropy(S)', allc, xr=(0.125, 3), yr=(-2, 1.5))
+        run('KLCE-prior', kind, sctor, 'F.KullbackLeiblerCrossEntropy(S, prior=S.one() * 2.0)', allc, xr=(0.125, 3), yr=(-2, 1.5))
+        run('KLCEcc', kind, sctor, 'F.KullbackLeiblerCrossEntropy(S).convex_conj', allc, xr=(-2, 1.5), yr=(0.125, 3))
+        for p in (1.5, 3.0, 4.0):
+            run('LpNorm-%s' % p, kind, sctor, 'F.LpNorm(S, %r)' % p, ('fy', 'biconj'), yr=(-0.6, 0.6))
+            run('LpBall-%s' % p, kind, sctor, 'F.IndicatorLpUnitBall(S, %r)' % p, ('fy', 'biconj'), xr=(-0.6, 0.6))
+        run('Linf', kind, sctor, 'F.LpNorm(S, np.inf)', allc)
+        run('L1ball', kind, sctor, 'F.IndicatorLpUnitBall(S, 1)', allc, xr=(-1, 1))
+        run('Box', kind, sctor, 'F.IndicatorBox(S, -1, 2)', ('moreau',))
+        run('Nonneg', kind, sctor, 'F.IndicatorNonnegativity(S)', ('moreau',))
+        run('Huber', kind, sctor, 'F.Huber(S, 0.75)', allc,
+            key='huber-array-weighted' if kind == 'rn_array' else None)
+        run('Huber-conj', kind, sctor, 'F.Huber(S, 0.75).convex_conj', ('moreau',))
+        # QuadraticForm with a matrix operator (inner product of the space: only rn has the plain transpose)
+        if kind == 'rn':
+            run('QuadMatrix-sym', kind, sctor,
+                'F.QuadraticForm(odl.MatrixOperator(np.array([[2., 1., 0.], [1., 3., 1.], [0., 1., 2.]])), '
+                'S.element([1., -2., 0.5]), 1.5)', ('fy', 'grad-eq', 'biconj'))
+            run('QuadMatrix-nonsym', kind, sctor,
+                'F.QuadraticForm(odl.MatrixOperator(np.array([[1., 1., 0.], [-1., 1., 0.], [0., 0., 1.]])))',
+                ('fy', 'grad-eq'), key='quadraticform-conj-nonsymmetric')
+    for kind, sctor in pspaces:
+        for e in (1, 2):
+            run('GroupL1-%d' % e, kind, sctor, 'F.GroupL1Norm(S, %d)' % e, allc)
+            run('GroupL1ball-%s' % e, kind, sctor, 'F.GroupL1Norm(S, %d).convex_conj' % e, allc, xr=(-1, 1))
+        run('L1-on-product', kind, sctor, 'F.L1Norm(S)', allc)
+        run('L2-on-product', kind, sctor, 'F.L2Norm(S)', allc)
+        run('L2sq-on-product', kind, sctor, 'F.L2NormSquared(S)', allc)
+        run('Huber-on-product', kind, sctor, 'F.Huber(S, 0.75)', ('fy', 'grad-eq'))
+        run('SepSum-list-sigma', kind, sctor,
+            'F.SeparableSum(*[F.L1Norm(S[0]), F.L2NormSquared(S[0]), F.L2Norm(S[0])][:len(S)])', ('moreau',),
+            sig=[0.5, 2.0, 1.0][:2 if 'rn(2' not in sctor else 3])
+    for kind, sctor in mspaces:
+        for oe, se in ((1, 1), (1, 2), (1, np.inf)):
+            run('Nuclear-%s-%s' % (oe, se), kind, sctor, 'F.NuclearNorm(S, %r, %s)' % (oe, 'np.inf' if se == np.inf else se),
+                ('fy', 'moreau', 'biconj'), yr=(-0.3, 0.3))
+
+
 def probes(rng, tier):
-    return []
+    import warnings
+    warnings.simplefilter('ignore')
+    np.seterr(all='ignore')
+    out = []
+    tree_probes(rng, tier, out)
+    class_probes(rng, tier, out)
+    return out
 
 
 LEVEL_TEXT = 'see notes/C08.md'
